@@ -429,7 +429,7 @@ def oracle(ctx):
     # leave room for the correspondence runs
     deadline = time.time() + max(20.0, ctx.time_left() - ctx.scale(50, 240))
     opts = {"inherit_false": 0.06, "deadline": deadline}
-    workers = min(16, os.cpu_count() or 4)
+    workers = max(2, min(12, (os.cpu_count() or 4) * 3 // 4))
     # the first wave of histories always reaches its 4th state, however slow the machine is
     todo = [(ctx.repo, ctx.tmp, "%s-%d-hist-%d" % (ctx.prop, ctx.seed, i), n_edits,
              dict(opts, min_steps=4 if i < workers else 0)) for i in range(n_hist)]
